@@ -93,6 +93,8 @@ def gen_progs(rng, n, pid):
             opts["full_sig"] = rng.random() < 0.8
         if pid == "C12":
             opts["lit_p"] = 0.35
+        if pid in ("C13", "C01"):
+            opts["unexported_p"] = 0.3
         if pid in ("C14", "C01"):
             opts["names_p"] = 0.9 if pid == "C14" else 0.5
         p = prog.make_prog(rng, opts=opts)
@@ -120,6 +122,11 @@ def prog_oracle(pid, p, r, o):
     if pid in ("C05", "C06", "C07", "C08", "C09", "C10", "C11", "C12"):
         msgs += props_oracle_core(pid, (tree, given, out), accepted, set_ok, set_errs, solve_errs, None,
                                   sig=(p["cleanup"], p["err"]), inject_errs=inj_errs)
+    if pid in ("C13", "C01") and accepted:
+        seen_t, _, _ = spec.needed(tree, given, out)
+        bad = [v["id"] for x in spec.all_sets(tree) for v in x["values"] if v.get("unexported") and v["out"] in seen_t]
+        if bad:
+            msgs.append("value expressions %s mention an unexported field of another package, yet generation succeeded" % bad)
     if pid in ("C01", "C02", "C03", "C04", "C14") and accepted:
         if "build_error" in o:
             msgs.append("wire gen succeeded but the package does not compile: " + o["build_error"][:400])
